@@ -13,8 +13,15 @@ LOCS = [("cd", 4), ("code", 0)]
 POS = [0, 1]      # argument index: T alone, or T after one uint256
 
 
+# shapes on both sides of the copy-the-maximum heuristics of the legacy copier for the two sources
+# (_prefer_copy_maxbound_heuristic: calldata 9 / 17, data 29 / 37 words of cost)
+EXTRA = [("bytes", 288), ("bytes", 289), ("darr", ("uint", 256), 5), ("darr", ("uint", 256), 6),
+         ("darr", ("uint", 256), 12), ("darr", ("uint", 256), 13), ("darr", ("sarr", ("uint", 256), 2), 7)]
+
+
 def family():
-    return TP.shape_family()
+    fam = TP.shape_family()
+    return fam + [t for t in EXTRA if t not in fam]
 
 
 def export_legacy(fam, loc, k):
